@@ -74,7 +74,9 @@ static cbor_item_t* build(int depth) {
     case 0: case 1: { /* array */
       size_t n = vh_randn(5);
       bool def = vh_randn(2);
-      cbor_item_t* a = def ? cbor_new_definite_array(n + vh_randn(2)) : cbor_new_indefinite_array(); /* maybe one spare slot */
+      /* definite: sometimes spare slots, occasionally a capacity on the other side of a head-width boundary (23/24, 255/256, 65535/65536) */
+      static const size_t spare[] = {0, 0, 0, 1, 1, 2, 21, 24, 30, 252, 256, 300, 65533, 65536};
+      cbor_item_t* a = def ? cbor_new_definite_array(n + spare[vh_randn(14)]) : cbor_new_indefinite_array();
       if (!a) return NULL;
       for (size_t i = 0; i < n; i++) {
         cbor_item_t* m = member(depth - 1);
@@ -88,7 +90,8 @@ static cbor_item_t* build(int depth) {
     case 2: case 3: { /* map */
       size_t n = vh_randn(4);
       bool def = vh_randn(2);
-      cbor_item_t* mp = def ? cbor_new_definite_map(n + vh_randn(2)) : cbor_new_indefinite_map();
+      static const size_t mspare[] = {0, 0, 0, 1, 1, 2, 21, 24, 30, 252, 256, 300, 65533, 65536};
+      cbor_item_t* mp = def ? cbor_new_definite_map(n + mspare[vh_randn(14)]) : cbor_new_indefinite_map();
       if (!mp) return NULL;
       for (size_t i = 0; i < n; i++) {
         cbor_item_t* k = member(depth - 1);
